@@ -18,7 +18,9 @@ ADDR_PATS = ["10.0.0.0/8", "10.1.2.0/24", "10.1.2.3", "10.1.*", "10.1.2.*", "10.
              "10.1.2.2/31", "10.1.2.0/23", "2001:db8::/33", "2001:db8:8000::/33", "2001:db8:1::5/128", "10.1.3.0/24", "11.0.0.0/8", "2001:db8:1:0:0:0:0:4/126",
              "10.1.2.3/32", "10.1.2.128/25", "2001:db8::/16", "2001:*", "10.1/16", "10.1.2/24", "10.1.2/23", "11.0/8",
              # a prefix of no bits at all written with a base address that is not zero; a full 128-bit prefix
-             "10.0.0.0/0", "255.255.255.255/0", "2001:db8::/0", "2001:db8:1::5", "2001:db8:1:0:0:0:0:5/128"]
+             "10.0.0.0/0", "255.255.255.255/0", "2001:db8::/0", "2001:db8:1::5", "2001:db8:1:0:0:0:0:5/128",
+             # networks whose bits are all zero (or all one) under a prefix that is not empty: an address criterion like any other
+             "0::/96", "0::/8", "0:0:*", "0.0.0.0/8", "ffff:ffff::/32", "255.255.255.255/32"]
 USER_PATS = ["~*", "joe", "j?e", "*", "~joe", "?*", "root", "[~j]*", "j[a-o]e", "\\~joe", "[!~]*"]
 HOST_PATS = ["*.example.org", "host?.net", "*", "a.example.org", "*.net", "host??.net", "?*", "*.*", "10.*", "*:*", "2001:*", "*example.org", "?.example.org",
              "*/*", "[a-b].example.org*", "HOST*", "*[!.]"]
@@ -41,7 +43,7 @@ def gen_rules(rng, bad=True):
     for nm in names:
         r = {"name": nm}
         if rng.random() < 0.7:
-            r["class"] = rng.choice(["trusted", "clients", "c-" + nm.lower(), "Users", "x" * 70])
+            r["class"] = rng.choice(["trusted", "clients", "c-" + nm.lower(), "Users", "x" * 70, "trusted", "clients", "Users", "top10%%", "%5d%%", "100%"])
         if rng.random() < 0.35:
             r["account"] = rng.choice(ACCT_PATS)
         if rng.random() < 0.45:
